@@ -6,6 +6,7 @@ import (
 	"strings"
 
 	"github.com/pgavlin/dawn/diff"
+	"github.com/pgavlin/dawn/internal/verifhook"
 	"github.com/pgavlin/dawn/label"
 	"github.com/pgavlin/dawn/runner"
 	"go.starlark.net/starlark"
@@ -109,7 +110,9 @@ func (t *runTarget) Evaluate(engine runner.Engine) error {
 	}
 
 	// Otherwise, evaluate the target.
+	verifhook.Crash("eval.beforeBody", label.String())
 	data, changed, err := t.target.evaluate()
+	verifhook.Crash("eval.afterBody", label.String())
 	if err != nil {
 		proj.events.TargetFailed(label, err)
 
@@ -119,6 +122,7 @@ func (t *runTarget) Evaluate(engine runner.Engine) error {
 			Dependencies: depData,
 			Rerun:        true,
 		})
+		verifhook.Crash("eval.afterFailSave", label.String())
 		return err
 	}
 
@@ -136,6 +140,7 @@ func (t *runTarget) Evaluate(engine runner.Engine) error {
 		proj.events.TargetFailed(label, err)
 		return err
 	}
+	verifhook.Crash("eval.afterSave", label.String())
 	proj.events.TargetSucceeded(label, changed)
 	return nil
 }
